@@ -82,6 +82,9 @@ func (e cliEnv) run(args []string, stdin []byte, outfile bool) cliResult {
 	defer cancel()
 	cmd := exec.CommandContext(ctx, gtsBin(), full...)
 	cmd.Env = []string{"HOME=" + e.dir, "XDG_CACHE_HOME=" + filepath.Join(e.dir, "cache"), "TMPDIR=" + filepath.Join(e.dir, "tmp"), "PATH=/usr/bin:/bin", "LANG=C"}
+	if d := os.Getenv("GOCOVERDIR"); d != "" {
+		cmd.Env = append(cmd.Env, "GOCOVERDIR="+d) // coverage of a cover-built gts binary (development aid, not used by the checks)
+	}
 	cmd.Dir = e.dir
 	cmd.Stdin = bytes.NewReader(stdin)
 	var so, se bytes.Buffer
